@@ -610,6 +610,21 @@ def op_st(draw, config, kinds, specs):
         return draw(user_rpc_st(config, i, specs))
     if kind == 'rpc_fuzz':
         return draw(fuzz_rpc_st(config, i, specs))
+    if kind == 'rpc_start':
+        apps = [a['name'] for a in config.get('apps', [])] or ['nothing']
+        strategy = draw(st.sampled_from(STARTING))
+        method = draw(st.sampled_from(['start_application', 'start_application', 'restart_application', 'start_process',
+                                       'restart_process', 'restart_sequence', 'stop_application']))
+        if method in ('start_application', 'restart_application'):
+            return ['rpc', i, method, [strategy, draw(st.sampled_from(apps)), False]]
+        if method == 'stop_application':
+            return ['rpc', i, method, [draw(st.sampled_from(apps)), False]]
+        if method == 'restart_sequence':
+            return ['rpc', i, method, [False]]
+        return ['rpc', i, method, [strategy, draw(st.sampled_from(specs or ['x:y'])), '', False]]
+    if kind == 'rpc_disable':
+        programs = [p['name'] for a in config.get('apps', []) for p in a['programs']] or ['nothing']
+        return ['rpc', i, draw(st.sampled_from(['disable', 'disable', 'enable'])), [draw(st.sampled_from(programs)), False]]
     if kind == 'rpc_end':
         return ['rpc', i, draw(st.sampled_from(['restart', 'shutdown'])), []]
     if kind == 'group_ops':
